@@ -3,7 +3,7 @@ import sys
 
 import z3
 
-from checks import common, repair
+from checks import common, repair, gen
 from symx import core, symnp, oracles, strs
 
 PID = "C08"
@@ -97,6 +97,12 @@ def body(e, L, cfg):
         chk = strs.mk(chk_codes)
     symnp.WHERE_POLICY = "concrete"
     try:
+        # history: an earlier repair on ANOTHER graph of the same order (caches keyed by shape / vertex must not leak)
+        try:
+            other = gen.induced(k, [True] * (4 ** k))
+            L.repair_dna(strs.K("ACGTTGCA"[:2 * k + 2]), symnp.array(other), 0, k, has_indel=True)
+        except Exception:
+            pass
         kind, val, reads = repair.run_repair(e, L, rows, c, start, k, vt_check=chk, has_indel=cfg["has_indel"], heap_size=1e9,
                                              budget=repair.budget_for(len(ccodes), k))
     finally:
@@ -106,6 +112,7 @@ def body(e, L, cfg):
         cx = repair.repair_cex(m, cfg["graph"], ccodes, start, k, chk_codes, cfg["has_indel"], 1e9)
         cx["orig"] = oracles.model_string(m, wcodes)
         cx["edits"] = len(edits)
+        cx["warmup"] = True
         return cx
     if kind != "ok":
         r, m = e.check()
